@@ -128,6 +128,18 @@ class Canon(ast.NodeTransformer):
                 return ast.copy_location(ast.DictComp(key=comp.elt.elts[0], value=comp.elt.elts[1], generators=comp.generators), node)
         return node
 
+    def visit_Subscript(self, node):
+        self.generic_visit(node)
+        # ``{'a': 'x', 'b': 'y'}['b']`` -> ``'y'`` (a constant table indexed by a constant: appears when a class-level
+        # table is substituted for ``self.TABLE`` in a dissolved helper)
+        d = node.value
+        if isinstance(node.ctx, ast.Load) and isinstance(d, ast.Dict) and isinstance(node.slice, ast.Constant) and d.keys and \
+                all(isinstance(k, ast.Constant) for k in d.keys) and all(isinstance(v, ast.Constant) for v in d.values):
+            hits = [v for k, v in zip(d.keys, d.values) if type(k.value) is type(node.slice.value) and k.value == node.slice.value]
+            if len(hits) == 1 and len(set((type(k.value), k.value) for k in d.keys)) == len(d.keys):
+                return ast.copy_location(ast.Constant(value=hits[0].value), node)
+        return node
+
     def visit_UnaryOp(self, node):
         self.generic_visit(node)
         if isinstance(node.op, ast.Not) and isinstance(node.operand, ast.Compare) and len(node.operand.ops) == 1:
@@ -178,6 +190,27 @@ class Canon(ast.NodeTransformer):
 
 
 # ---------------------------------------------------------------------------------------------- inliner
+_DEFS = (ast.FunctionDef, ast.AsyncFunctionDef, ast.ClassDef, ast.Lambda)
+
+
+def _map_blocks(node, fn):
+    """Apply ``fn(list of statements) -> list`` to every statement list below ``node`` (innermost first), not entering
+    nested function / class definitions."""
+    for field in ('body', 'orelse', 'finalbody'):
+        sub = getattr(node, field, None)
+        if isinstance(sub, list) and sub and isinstance(sub[0], ast.stmt):
+            for s in sub:
+                if not isinstance(s, _DEFS):
+                    _map_blocks(s, fn)
+            setattr(node, field, fn(sub))
+    if isinstance(node, ast.Try):
+        for h in node.handlers:
+            for s in h.body:
+                if not isinstance(s, _DEFS):
+                    _map_blocks(s, fn)
+            h.body = fn(h.body)
+
+
 def _contains(stmts, types, stop=(ast.FunctionDef, ast.AsyncFunctionDef, ast.ClassDef, ast.Lambda)):
     todo = list(stmts)
     while todo:
@@ -465,10 +498,217 @@ def collect_helpers(tree, anchors):
     return mod_helpers, cls_helpers
 
 
+
+# ---------------------------------------------------------------------------------------------- context managers
+_WITH_BODY = '__vt_with_body__'
+_KW_PASS = '__vt_kw_pass__'
+
+
+def _is_cm_decorator(d):
+    return (isinstance(d, ast.Name) and d.id == 'contextmanager') or \
+        (isinstance(d, ast.Attribute) and d.attr == 'contextmanager' and isinstance(d.value, ast.Name) and d.value.id == 'contextlib')
+
+
+def _cm_shape(fn):
+    """A ``@contextmanager`` generator with exactly one ``yield`` statement in straight-line position (top level of the
+    body or of (nested) ``try`` bodies) and no ``return``: -> (the yield statement, tail) where ``tail`` says that nothing
+    but ``finally`` clauses runs after the yield on normal completion.  None when the shape is anything else."""
+    ys = [n for n in ast.walk(fn) if isinstance(n, (ast.Yield, ast.YieldFrom))]
+    body = fn.body
+    if body and isinstance(body[-1], ast.Return) and body[-1].value is None:
+        body = body[:-1]          # a bare ``return`` closing the generator
+    if len(ys) != 1 or not isinstance(ys[0], ast.Yield) or _contains_return(body):
+        return None
+    found = []
+
+    def search(stmts, tail):
+        for i, s in enumerate(stmts):
+            last = tail and i == len(stmts) - 1
+            if isinstance(s, ast.Expr) and s.value is ys[0]:
+                found.append((s, last))
+                return True
+            if isinstance(s, ast.Try) and any(n is ys[0] for n in ast.walk(ast.Module(body=s.body, type_ignores=[]))):
+                return search(s.body, last and not s.orelse)
+        return False
+    if not search(body, True) or not found:
+        return None
+    return found[0]
+
+
+def _eligible_cm(fn, anchors):
+    if not isinstance(fn, ast.FunctionDef) or fn.name in anchors or not fn.name.startswith('_') or fn.name.startswith('__'):
+        return None
+    decos = [d for d in fn.decorator_list if not (isinstance(d, ast.Name) and d.id == 'staticmethod')]
+    if len(decos) != 1 or not _is_cm_decorator(decos[0]):
+        return None
+    shape = _cm_shape(fn)
+    if shape is None:
+        return None
+    # everything else as for a plain helper: judged on a copy without the decorator and the yield
+    fake = copy.deepcopy(fn)
+    if isinstance(fake.body[-1], ast.Return) and fake.body[-1].value is None and len(fake.body) > 1:
+        fake.body = fake.body[:-1]
+    fake.decorator_list = [d for d in fake.decorator_list if isinstance(d, ast.Name) and d.id == 'staticmethod']
+    for n in ast.walk(fake):
+        for field in ('body', 'orelse', 'finalbody'):
+            sub = getattr(n, field, None)
+            if isinstance(sub, list):
+                for i, st in enumerate(sub):
+                    if isinstance(st, ast.Expr) and isinstance(st.value, ast.Yield):
+                        v = st.value.value
+                        sub[i] = ast.copy_location(ast.Expr(value=ast.Tuple(elts=[ast.Name(id=_WITH_BODY, ctx=ast.Load())] +
+                                                                            ([v] if v is not None else []), ctx=ast.Load())), st)
+    kind = _eligible_def(fake)
+    if kind is None:
+        return None
+    return kind, fake, shape[1]
+
+
+def collect_context_managers(tree, anchors):
+    mod, cls = {}, {}
+    counts = {}
+    for st in tree.body:
+        if isinstance(st, ast.ClassDef):
+            for m in st.body:
+                if isinstance(m, ast.FunctionDef):
+                    counts[m.name] = counts.get(m.name, 0) + 1
+    for st in tree.body:
+        if isinstance(st, ast.FunctionDef):
+            r = _eligible_cm(st, anchors)
+            if r is not None and r[0] == 'func':
+                h = Helper(r[1], 'func')
+                h.tail, h.orig = r[2], st
+                mod[st.name] = h
+        elif isinstance(st, ast.ClassDef):
+            for m in st.body:
+                r = _eligible_cm(m, anchors) if isinstance(m, ast.FunctionDef) else None
+                if r is not None and counts.get(m.name) == 1:
+                    h = Helper(r[1], 'method' if r[0] == 'func' else r[0], st.name)
+                    h.tail, h.orig = r[2], m
+                    cls[(st.name, m.name)] = h
+    for st in ast.walk(tree):
+        if isinstance(st, ast.Assign):
+            for t in st.targets:
+                if isinstance(t, ast.Name):
+                    mod.pop(t.id, None)
+    return mod, cls
+
+
+# ---------------------------------------------------------------------------------------------- private classes used as records
+def _self_fields_assigned(stmts):
+    """Fields ``self.f`` assigned on every path through this statement list that completes normally."""
+    out = set()
+    for s in stmts:
+        if isinstance(s, ast.Assign):
+            for t in s.targets:
+                for e in (t.elts if isinstance(t, (ast.Tuple, ast.List)) else [t]):
+                    if isinstance(e, ast.Attribute) and isinstance(e.value, ast.Name) and e.value.id == 'self':
+                        out.add(e.attr)
+        elif isinstance(s, ast.If):
+            a, b = _self_fields_assigned(s.body), _self_fields_assigned(s.orelse)
+            if not _falls(s.body):
+                out |= b
+            elif not _falls(s.orelse):
+                out |= a
+            else:
+                out |= a & b
+        elif isinstance(s, ast.With):
+            out |= _self_fields_assigned(s.body)
+    return out
+
+
+class ObjClass(object):
+    def __init__(self, node):
+        self.node = node
+        self.methods, self.static, self.consts, self.fields = {}, set(), {}, set()
+
+
+def collect_object_classes(tree, anchors):
+    """Private module-level classes that are plain records with methods: no bases (or ``object``), no decorators, a body of
+    plain methods / staticmethods and constant class attributes; in every method ``self`` occurs only as ``self.<name>``;
+    every field a method stores is also stored at the top level of ``__init__`` (a fresh object never shows a field of an
+    older one).  An instance that never leaves the function that creates it can then be replaced by one local variable per
+    field (see Inliner._dissolve_objects)."""
+    out = {}
+    for st in tree.body:
+        if not isinstance(st, ast.ClassDef) or not st.name.startswith('_') or st.name.startswith('__') or st.name in anchors:
+            continue
+        if st.decorator_list or st.keywords or any(not (isinstance(b, ast.Name) and b.id == 'object') for b in st.bases):
+            continue
+        oc = ObjClass(st)
+        ok = True
+        for m in st.body:
+            if isinstance(m, ast.Expr) and isinstance(m.value, ast.Constant) and isinstance(m.value.value, str):
+                continue
+            if isinstance(m, ast.Assign) and len(m.targets) == 1 and isinstance(m.targets[0], ast.Name) and \
+                    not _contains([m.value], (ast.Call, ast.Lambda, ast.ListComp, ast.SetComp, ast.DictComp, ast.GeneratorExp, ast.Name), stop=()):
+                oc.consts[m.targets[0].id] = m.value
+                continue
+            if isinstance(m, ast.FunctionDef) and (m.name == '__init__' or not (m.name.startswith('__') and m.name.endswith('__'))):
+                # (method names are not compared with the anchors: the class is private and only dissolved where its
+                # instance never leaves the creating function -- no rule can mean a method of such an object)
+                fake = copy.copy(m)
+                fake.name = '_' + m.name.strip('_')
+                kind = _eligible_def(fake)
+                if any(isinstance(n, ast.Call) and isinstance(n.func, ast.Attribute) and n.func.attr == m.name for n in ast.walk(m)):
+                    kind = None      # recursive
+                if kind == 'static':
+                    oc.static.add(m.name)
+                elif kind != 'func' or not m.args.args or m.args.args[0].arg != 'self':
+                    ok = False
+                    break
+                oc.methods[m.name] = m
+                continue
+            ok = False
+            break
+        if not ok or not oc.methods:
+            continue
+        init_top = set()
+        stored = set()
+        for name, m in oc.methods.items():
+            if name in oc.static:
+                continue
+            attr_selfs = set(id(n.value) for n in ast.walk(m) if isinstance(n, ast.Attribute) and isinstance(n.value, ast.Name) and n.value.id == 'self')
+            for n in ast.walk(m):
+                if isinstance(n, ast.Name) and n.id == 'self' and id(n) not in attr_selfs:
+                    ok = False       # self escapes (passed on, returned, stored)
+                if isinstance(n, ast.arg) and n.arg == 'self' and n is not m.args.args[0]:
+                    ok = False
+                if isinstance(n, ast.Attribute) and isinstance(n.value, ast.Name) and n.value.id == 'self' and isinstance(n.ctx, (ast.Store, ast.Del)):
+                    if isinstance(n.ctx, ast.Del):
+                        ok = False
+                    stored.add(n.attr)
+            if name == '__init__':
+                init_top = _self_fields_assigned(m.body)
+        if not ok or not stored <= init_top or (stored & set(oc.methods)) or (stored & set(oc.consts)):
+            continue
+        oc.fields = stored
+        # every ``self.x`` read names a field, a method (as the callee of a call) or a class constant
+        for name, m in oc.methods.items():
+            callees = set(id(n.func) for n in ast.walk(m) if isinstance(n, ast.Call))
+            for n in ast.walk(m):
+                if isinstance(n, ast.Attribute) and isinstance(n.value, ast.Name) and n.value.id == 'self' and name not in oc.static:
+                    if n.attr in oc.fields or n.attr in oc.consts:
+                        continue
+                    if n.attr in oc.methods and id(n) in callees:
+                        continue
+                    ok = False
+        if ok:
+            out[st.name] = oc
+    return out
+
+
 class Inliner(object):
-    def __init__(self, tree, anchors):
+    def __init__(self, tree, anchors, foreign=None):
         self.tree = tree
         self.mod_helpers, self.cls_helpers = collect_helpers(tree, anchors)
+        # foreign(name) -> True when another module of the analysed tree mentions ``name`` (None: unknown, assume it does)
+        self.foreign = foreign
+        self.cm_mod, self.cm_cls = collect_context_managers(tree, anchors)
+        self.obj_classes = collect_object_classes(tree, anchors) if foreign is not None else {}
+        self.used = set()           # ids of helper definitions expanded at least once
+        self.shared_names = set()   # locals standing for the fields of a dissolved object: never renamed
+        self.objects = 0
         self.count = 0
         self.log = []
         self.anchors = anchors
@@ -487,20 +727,41 @@ class Inliner(object):
                         continue
                     names |= _stored_names([cst])
 
-    def _inherited_helper(self, cls_name, attr):
+    def _inherited_helper(self, cls_name, attr, table=None):
         """The helper ``attr`` that ``self.attr`` / ``cls.attr`` names inside class ``cls_name``: defined there or in
-        a base class reached through a chain of single, same-module bases none of which re-binds the name."""
-        cur, seen = cls_name, set()
-        while cur is not None and cur not in seen:
-            seen.add(cur)
-            if (cur, attr) in self.cls_helpers:
-                return self.cls_helpers[(cur, attr)]
-            bases = self.cls_bases.get(cur)
-            if attr in self.cls_assigned.get(cur, ()) or not bases or len(bases) != 1 or \
-                    not isinstance(bases[0], ast.Name) or self.cls_bases.get(bases[0].id) is None:
+        a base class of the same module (left-to-right, depth-first over the bases; collect_helpers admits a method name
+        only when exactly one class of the module defines it, so the first definition found is the only one).  A base
+        that is not a class of this module could define the name too: that is excluded only when the name is private
+        and no other module of the tree mentions it (``foreign``)."""
+        table = self.cls_helpers if table is None else table
+        opaque = [False]
+        seen = set()
+
+        def search(cur):
+            if cur in seen:
                 return None
-            cur = bases[0].id
-        return None
+            seen.add(cur)
+            if (cur, attr) in table:
+                return table[(cur, attr)]
+            if attr in self.cls_assigned.get(cur, ()):
+                opaque[0] = True
+                return None
+            for b in self.cls_bases.get(cur) or []:
+                if isinstance(b, ast.Name) and b.id == 'object':
+                    continue
+                if isinstance(b, ast.Name) and self.cls_bases.get(b.id) is not None:
+                    h = search(b.id)
+                    if h is not None or opaque[0]:
+                        return h
+                else:
+                    # a class of another module: it may define the name unless nobody else mentions it
+                    if not (attr.startswith('_') and not attr.startswith('__') and self.foreign is not None and not self.foreign(attr)):
+                        opaque[0] = True
+                        return None
+            return None
+        if self.cls_bases.get(cls_name) is None:
+            return None
+        return search(cls_name)
 
     def _local_helpers(self, fn):
         """Closures that are plain local helpers: ``def reg(a, b): ...`` at the top level of ``fn``'s body, never re-bound,
@@ -589,6 +850,7 @@ class Inliner(object):
         for p, a in zip(pos, call.args):
             binding[p] = a
         kwparam = fn.args.kwarg.arg if fn.args.kwarg is not None else None
+        extra_kws = []
         for k in call.keywords:
             if k.arg is None:
                 if kwparam is None or kwparam in binding:
@@ -596,6 +858,10 @@ class Inliner(object):
                 binding[kwparam] = k.value
                 continue
             if k.arg in binding or k.arg not in params + kwonly:
+                if kwparam is not None and k.arg not in params + kwonly and _simple_arg(k.value) and \
+                        k.arg not in [e.arg for e in extra_kws]:
+                    extra_kws.append(k)       # lands in the helper's ``**kw``, which it only passes on
+                    continue
                 raise CannotInline('bad keyword %s' % k.arg)
             binding[k.arg] = k.value
         if kwparam is not None and kwparam not in binding:
@@ -629,7 +895,7 @@ class Inliner(object):
                 body_names = set(n.id for s_ in body for n in ast.walk(s_) if isinstance(n, ast.Name))
                 if r is not None and r in stored and r not in binding and r != target.id and target.id not in body_names:
                     rename[r] = target.id
-        for n in sorted((stored | comp_targets) - set(binding) - set(rename)):
+        for n in sorted((stored | comp_targets) - set(binding) - set(rename) - self.shared_names):
             if n in taken:
                 new = n + '_'
                 while new in taken or new in stored:
@@ -638,7 +904,7 @@ class Inliner(object):
                 taken.add(new)
         mapping, pre = {}, []
         if kwparam is not None:
-            mapping[kwparam] = binding[kwparam]      # only ever read as ``**kw``: the caller's mapping stands for it
+            mapping[kwparam] = ast.Name(id=_KW_PASS, ctx=ast.Load())      # only ever read as ``**kw``: see below
         for p in params + kwonly:
             v = binding[p]
             if p in stored or p in comp_targets or not _simple_arg(v):
@@ -655,11 +921,31 @@ class Inliner(object):
                 mapping[p] = v
         sub = _Subst(mapping, rename)
         body = [sub.visit(s) for s in body]
+        if kwparam is not None:
+            # ``g(.., **kw)`` in the helper: the caller's explicit extra keywords, then the caller's own ``**mapping``
+            real = binding[kwparam]
+            empty = isinstance(real, ast.Dict) and not real.keys
+            for st in body:
+                for c in ast.walk(st):
+                    if isinstance(c, ast.Call) and any(k.arg is None and isinstance(k.value, ast.Name) and k.value.id == _KW_PASS for k in c.keywords):
+                        kws = []
+                        for k in c.keywords:
+                            if k.arg is None and isinstance(k.value, ast.Name) and k.value.id == _KW_PASS:
+                                for e in extra_kws:
+                                    if any(o.arg == e.arg for o in c.keywords):
+                                        raise CannotInline('keyword %s given twice' % e.arg)
+                                    kws.append(ast.keyword(arg=e.arg, value=copy.deepcopy(e.value)))
+                                if not empty:
+                                    kws.append(ast.keyword(arg=None, value=copy.deepcopy(real)))
+                            else:
+                                kws.append(k)
+                        c.keywords = kws
         return pre, body
 
     def expand(self, h, call, recv, ctx, target, caller_names):
         """ctx: 'return' | 'expr' | 'assign'.  Returns the replacement statements."""
         pre, body = self._bind(h, call, recv, caller_names, target if ctx == 'assign' else None)
+        self.used.add(id(getattr(h, 'orig', h.node)))
         if ctx == 'return':
             out = pre + body
             if _falls(body):
@@ -688,6 +974,214 @@ class Inliner(object):
             k = [ast.copy_location(ast.Assign(targets=[copy.deepcopy(target)], value=ast.Constant(value=None)), call)]
         return pre + _Elim(emit_assign).seq(body, k)
 
+    # -- ``with cm(..): BODY`` for a context manager written as a generator of this module ------------------
+    def _cm_of(self, call, cls_name):
+        f = call.func
+        if any(isinstance(a, ast.Starred) for a in call.args) or any(k.arg is None for k in call.keywords):
+            return None, None
+        if isinstance(f, ast.Name) and f.id in self.cm_mod and f.id not in self.shadowed:
+            return self.cm_mod[f.id], None
+        if isinstance(f, ast.Attribute) and isinstance(f.value, ast.Name) and f.value.id in ('self', 'cls') and cls_name is not None:
+            h = self._inherited_helper(cls_name, f.attr, self.cm_cls)
+            if h is not None:
+                return h, f.value
+        return None, None
+
+    def _expand_with(self, s, cls_name, caller_names):
+        """``with cm(a) as t: BODY`` where ``cm`` is a one-yield ``@contextmanager`` generator (see _cm_shape) is the
+        generator's body with the ``yield v`` statement replaced by ``t = v; BODY``: the manager enters by running the
+        generator up to the yield, raises BODY's exception *at* the yield (so the generator's own try/except/finally
+        around it apply exactly as written), and on normal completion resumes behind it.  BODY may leave by return /
+        break / continue only when nothing but ``finally`` clauses would have run behind the yield."""
+        if len(s.items) > 1:
+            inner = ast.copy_location(ast.With(items=s.items[1:], body=s.body, type_comment=None), s)
+            s2 = ast.copy_location(ast.With(items=s.items[:1], body=[inner], type_comment=None), s)
+            if isinstance(s.items[0].context_expr, ast.Call) and self._cm_of(s.items[0].context_expr, cls_name)[0] is not None:
+                return self._expand_with(s2, cls_name, caller_names)
+            # the first manager is not ours; a later one may be
+            rep = self._expand_with(inner, cls_name, caller_names)
+            if rep is None:
+                return None
+            return [ast.copy_location(ast.With(items=s.items[:1], body=rep, type_comment=None), s)]
+        it = s.items[0]
+        if not isinstance(it.context_expr, ast.Call):
+            return None
+        h, recv = self._cm_of(it.context_expr, cls_name)
+        if h is None:
+            return None
+        if it.optional_vars is not None and not isinstance(it.optional_vars, ast.Name):
+            return None
+        leaves = _contains_return(s.body) or Unroll._loop_jumps(s.body)
+        if leaves and not h.tail:
+            raise CannotInline('with body leaves early and the manager has code behind its yield')
+        pre, body = self._bind(h, it.context_expr, recv, caller_names, None)
+        done = [0]
+
+        def put(stmts):
+            out = []
+            for st in stmts:
+                if isinstance(st, ast.Expr) and isinstance(st.value, ast.Tuple) and st.value.elts and \
+                        isinstance(st.value.elts[0], ast.Name) and st.value.elts[0].id == _WITH_BODY:
+                    v = st.value.elts[1] if len(st.value.elts) > 1 else ast.copy_location(ast.Constant(value=None), st)
+                    if it.optional_vars is not None:
+                        out.append(ast.copy_location(ast.Assign(targets=[ast.Name(id=it.optional_vars.id, ctx=ast.Store())], value=v), s))
+                    elif _contains([v], (ast.Call,)):
+                        out.append(ast.copy_location(ast.Expr(value=v), s))
+                    out.extend(s.body)
+                    done[0] += 1
+                    continue
+                if isinstance(st, ast.Try):
+                    st.body = put(st.body)
+                out.append(st)
+            return out
+        body = put(body)
+        if done[0] != 1:
+            raise CannotInline('yield position lost')
+        self.used.add(id(h.orig))
+        return pre + body
+
+    # -- objects of private record classes that never leave the function creating them --------------------
+    def _dissolve_objects(self, fn):
+        """``v = _C(a); v.m(x); return v.f`` with ``_C`` a class admitted by collect_object_classes and ``v`` used only as
+        the receiver of method calls / field accesses in ``fn``'s own scope: the object is replaced by one local per field
+        (``v__f``), ``v = _C(a)`` by the statements of ``__init__``, ``v.m(x)`` by the statements of ``m`` (both through
+        the ordinary helper inliner: the methods are registered as local helpers whose ``self.f`` is ``v__f``).  Returns the
+        number of objects dissolved; the caller keeps the result only when every synthetic call was expanded."""
+        if not self.obj_classes:
+            return 0
+        shadow = _stored_names(fn.body) | set(a.arg for n in ast.walk(fn) if isinstance(n, ast.arguments)
+                                              for a in n.posonlyargs + n.args + n.kwonlyargs + [x for x in (n.vararg, n.kwarg) if x])
+        classes = dict((k, v) for k, v in self.obj_classes.items() if k not in shadow)
+        if not classes:
+            return 0
+        allnames = _all_names(fn)
+        counter = [0]
+
+        # ``_C(a).m(x)`` as the value of a statement -> ``_vto1 = _C(a)`` / ``.. _vto1.m(x)``
+        def direct(stmts):
+            out = []
+            for st in stmts:
+                v = getattr(st, 'value', None) if isinstance(st, (ast.Return, ast.Assign, ast.Expr)) else None
+                if isinstance(v, ast.Call) and isinstance(v.func, ast.Attribute) and isinstance(v.func.value, ast.Call) and \
+                        isinstance(v.func.value.func, ast.Name) and v.func.value.func.id in classes and \
+                        (not isinstance(st, ast.Assign) or all(isinstance(t, ast.Name) for t in st.targets)):
+                    tmp = '_vto%d' % counter[0]
+                    while tmp in allnames:
+                        counter[0] += 1
+                        tmp = '_vto%d' % counter[0]
+                    counter[0] += 1
+                    allnames.add(tmp)
+                    out.append(ast.copy_location(ast.Assign(targets=[ast.Name(id=tmp, ctx=ast.Store())], value=v.func.value), st))
+                    v.func.value = ast.copy_location(ast.Name(id=tmp, ctx=ast.Load()), v.func.value)
+                out.append(st)
+            return out
+        _map_blocks(fn, direct)
+        own = [n for s_ in fn.body for n in _walk_same_scope(s_)]
+        own_ids = set(id(n) for n in own)
+        cands = {}
+        for n in own:
+            if isinstance(n, ast.Assign) and len(n.targets) == 1 and isinstance(n.targets[0], ast.Name) and isinstance(n.value, ast.Call) and \
+                    isinstance(n.value.func, ast.Name) and n.value.func.id in classes and \
+                    not any(isinstance(a, ast.Starred) for a in n.value.args) and not any(k.arg is None for k in n.value.keywords):
+                cands.setdefault(n.targets[0].id, []).append(n)
+        done = 0
+        for v, assigns in sorted(cands.items()):
+            cnames = set(a.value.func.id for a in assigns)
+            if len(cnames) != 1:
+                continue
+            oc = classes[cnames.pop()]
+            targets = set(id(a.targets[0]) for a in assigns)
+            ok = True
+            attr_of = {}
+            callees = set()
+            for n in ast.walk(fn):
+                if isinstance(n, ast.Attribute) and isinstance(n.value, ast.Name) and n.value.id == v:
+                    attr_of[id(n.value)] = n
+                if isinstance(n, ast.Call):
+                    callees.add(id(n.func))
+                if isinstance(n, ast.arg) and n.arg == v:
+                    ok = False
+                if isinstance(n, (ast.Global, ast.Nonlocal)) and v in n.names:
+                    ok = False
+            uses = []
+            for n in ast.walk(fn):
+                if not (isinstance(n, ast.Name) and n.id == v) or id(n) in targets:
+                    continue
+                a = attr_of.get(id(n))
+                if id(n) not in own_ids or not isinstance(n.ctx, ast.Load) or a is None:
+                    ok = False
+                    break
+                if a.attr in oc.methods and id(a) in callees and isinstance(a.ctx, ast.Load):
+                    uses.append(('call', a))
+                elif a.attr in oc.fields and isinstance(a.ctx, (ast.Load, ast.Store)):
+                    uses.append(('field', a))
+                elif a.attr in oc.consts and isinstance(a.ctx, ast.Load):
+                    uses.append(('const', a))
+                else:
+                    ok = False
+                    break
+            loc = dict((f, '%s__%s' % (v, f)) for f in oc.fields)
+            if not ok or any(x in allnames for x in loc.values()):
+                continue
+            syn = dict((m, '__vto_%s_%s' % (v, m)) for m in oc.methods)
+
+            def synth(mname):
+                m = copy.deepcopy(oc.methods[mname])
+                m.name = syn[mname]
+                m.decorator_list = []
+                static = mname in oc.static
+                if not static:
+                    m.args.args = m.args.args[1:]
+
+                class S(ast.NodeTransformer):
+                    def visit_Attribute(self_, node):
+                        self_.generic_visit(node)
+                        if not static and isinstance(node.value, ast.Name) and node.value.id == 'self':
+                            if node.attr in loc:
+                                return ast.copy_location(ast.Name(id=loc[node.attr], ctx=node.ctx), node)
+                            if node.attr in oc.consts:
+                                return ast.copy_location(copy.deepcopy(oc.consts[node.attr]), node)
+                            if node.attr in syn:
+                                return ast.copy_location(ast.Name(id=syn[node.attr], ctx=ast.Load()), node)
+                        return node
+                return S().visit(m)
+            for mname in oc.methods:
+                self.local_helpers[syn[mname]] = Helper(synth(mname), 'func')
+            self.shared_names |= set(loc.values())
+
+            class U(ast.NodeTransformer):
+                def visit_Attribute(self_, node):
+                    self_.generic_visit(node)
+                    if isinstance(node.value, ast.Name) and node.value.id == v:
+                        if node.attr in loc:
+                            return ast.copy_location(ast.Name(id=loc[node.attr], ctx=node.ctx), node)
+                        if node.attr in oc.consts:
+                            return ast.copy_location(copy.deepcopy(oc.consts[node.attr]), node)
+                        if node.attr in syn:
+                            return ast.copy_location(ast.Name(id=syn[node.attr], ctx=ast.Load()), node)
+                    return node
+            amap = set(id(a) for a in assigns)
+
+            def ctor(stmts):
+                out = []
+                for st in stmts:
+                    if id(st) in amap:
+                        if '__init__' in oc.methods:
+                            call = st.value
+                            call.func = ast.copy_location(ast.Name(id=syn['__init__'], ctx=ast.Load()), call.func)
+                            out.append(ast.copy_location(ast.Expr(value=call), st))
+                        else:
+                            out.append(ast.copy_location(ast.Pass(), st))
+                        continue
+                    out.append(st)
+                return out
+            for i, st in enumerate(fn.body):
+                fn.body[i] = U().visit(st)
+            _map_blocks(fn, ctor)
+            allnames |= set(loc.values())
+            done += 1
+        return done
+
     # -- traversal ---------------------------------------------------------------------------------------
     def _first_call(self, expr, cls_name):
         """The first helper call nested in ``expr`` at an unconditionally evaluated position."""
@@ -712,6 +1206,10 @@ class Inliner(object):
     def _process_stmt(self, s, cls_name, caller_names, tmp_counter):
         """Returns a list of statements replacing ``s`` (or None when unchanged)."""
         try:
+            if isinstance(s, ast.With):
+                rep = self._expand_with(s, cls_name, caller_names)
+                if rep is not None:
+                    return rep
             if isinstance(s, ast.Return) and isinstance(s.value, ast.Call):
                 h, recv = self._helper_of(s.value, cls_name)
                 if h is not None:
@@ -744,6 +1242,7 @@ class Inliner(object):
                     pre0, body0 = self._bind(h, call, recv, caller_names, None)
                     if not pre0 and len(body0) == 1 and isinstance(body0[0], ast.Return) and body0[0].value is not None:
                         val = ast.copy_location(body0[0].value, call)
+                        self.used.add(id(h.node))
 
                         class R0(ast.NodeTransformer):
                             def visit_Call(self_, node):
@@ -815,6 +1314,7 @@ class Inliner(object):
                 if free & bound:
                     return node
                 done[0] += 1
+                inl.used.add(id(h.node))
                 return ast.copy_location(new[0].value, node)
 
         for owner, field in roots:
@@ -849,19 +1349,43 @@ class Inliner(object):
             out.append(s)
         return out, changed
 
+    def _do_func(self, fn, cls_name, objects=False):
+        self.local_helpers = self._local_helpers(fn)
+        n_obj = 0
+        if objects:
+            n_obj = self._dissolve_objects(fn)      # registers the methods as local helpers, rewrites the uses
+        names = _all_names(fn)
+        self._bound = _stored_names(fn.body) | set(a.arg for n in ast.walk(fn) if isinstance(n, ast.arguments)
+                                                   for a in n.posonlyargs + n.args + n.kwonlyargs + [x for x in (n.vararg, n.kwarg) if x])
+        self.shadowed = _stored_names(fn.body) | set(a.arg for a in fn.args.posonlyargs + fn.args.args + fn.args.kwonlyargs) | \
+            set(n.name for n in ast.walk(fn) if isinstance(n, (ast.FunctionDef, ast.ClassDef)) and n is not fn)
+        new, ch = self._process_block(fn.body, cls_name, names, [0])
+        self.local_helpers = {}
+        if ch:
+            fn.body = new
+        return n_obj
+
     def run(self):
 
         def do_func(fn, cls_name):
-            names = _all_names(fn)
-            self._bound = _stored_names(fn.body) | set(a.arg for n in ast.walk(fn) if isinstance(n, ast.arguments)
-                                                       for a in n.posonlyargs + n.args + n.kwonlyargs + [x for x in (n.vararg, n.kwarg) if x])
-            self.local_helpers = self._local_helpers(fn)
-            self.shadowed = _stored_names(fn.body) | set(a.arg for a in fn.args.posonlyargs + fn.args.args + fn.args.kwonlyargs) | \
-                set(n.name for n in ast.walk(fn) if isinstance(n, (ast.FunctionDef, ast.ClassDef)) and n is not fn)
-            new, ch = self._process_block(fn.body, cls_name, names, [0])
-            self.local_helpers = {}
-            if ch:
-                fn.body = new
+            done = False
+            if self.obj_classes and any(isinstance(n, ast.Name) and n.id in self.obj_classes for n in ast.walk(fn)):
+                # objects of private record classes: tried on a copy, kept only when every synthetic call was expanded
+                cand = copy.deepcopy(fn)
+                saved = (set(self.shared_names), self.count, set(self.used), list(self.log))
+                try:
+                    n_obj = self._do_func(cand, cls_name, objects=True)
+                except CannotInline:
+                    n_obj = 0
+                self.local_helpers = {}
+                if n_obj and not any(isinstance(n, ast.Name) and n.id.startswith('__vto_') for n in ast.walk(cand)):
+                    fn.body = cand.body
+                    self.objects += n_obj
+                    done = True
+                else:
+                    self.shared_names, self.count, self.used, self.log = saved
+            if not done:
+                self._do_func(fn, cls_name)
             for st in fn.body:
                 for n in ast.walk(st):
                     if isinstance(n, ast.FunctionDef) and n is not fn:
@@ -878,6 +1402,50 @@ class Inliner(object):
             if self.count == before:
                 break
         return self.count
+
+    def drop_dissolved(self):
+        """Remove the definitions of private helpers / context managers / record classes that were expanded at least once
+        and that nothing names any more -- neither this module (identifier, attribute or string) nor another module of
+        the tree: what the rules then see is the program with the helper dissolved, not a second copy of its statements."""
+        if self.foreign is None:
+            return 0
+        dropped = 0
+        for _ in range(3):
+            mentioned = {}
+            for n in ast.walk(self.tree):
+                k = None
+                if isinstance(n, ast.Name):
+                    k = n.id
+                elif isinstance(n, ast.Attribute):
+                    k = n.attr
+                elif isinstance(n, ast.Constant) and isinstance(n.value, str) and _IDENT.match(n.value):
+                    k = n.value
+                elif isinstance(n, ast.alias):
+                    k = (n.asname or n.name).split('.')[-1]
+                if k is not None:
+                    mentioned[k] = mentioned.get(k, 0) + 1
+            before = dropped
+
+            def sweep(body, in_class):
+                nonlocal dropped
+                keep = []
+                for st in body:
+                    if isinstance(st, ast.FunctionDef) and id(st) in self.used and st.name.startswith('_') and \
+                            not (st.name.startswith('__') and st.name.endswith('__')) and st.name not in self.anchors and \
+                            not mentioned.get(st.name) and not self.foreign(st.name):
+                        dropped += 1
+                        continue
+                    if isinstance(st, ast.ClassDef) and not in_class:
+                        if st.name in self.obj_classes and self.objects and not mentioned.get(st.name) and not self.foreign(st.name):
+                            dropped += 1
+                            continue
+                        st.body = sweep(st.body, True) or [ast.copy_location(ast.Pass(), st)]
+                    keep.append(st)
+                return keep
+            self.tree.body = sweep(self.tree.body, False)
+            if dropped == before:
+                break
+        return dropped
 
 
 # ---------------------------------------------------------------------------------------------- loop unrolling
@@ -956,15 +1524,27 @@ class Unroll(ast.NodeTransformer):
         return out
 
 
-def normalize_tree(tree):
-    """Stage 1 (intra-module).  Returns (tree, number of inlined calls)."""
+def normalize_tree(tree, foreign=None):
+    """Stage 1 (intra-module).  Returns (tree, number of rewrites).  ``foreign(name)`` tells whether another module of
+    the analysed tree mentions ``name`` (needed before a private definition may be treated as local to this module)."""
+    from . import normalize2
     consts = module_const_tuples(tree)
     tree = Canon(consts).visit(tree)
-    inl = Inliner(tree, anchor_names())
-    n = inl.run()
-    if n:
-        tree = Canon(consts).visit(tree)
+    n = normalize2.hoist_walrus(tree)
+    n += normalize2.forward_lazy_temps(tree)
+    n += normalize2.split_chain_loops(tree)
+    n += normalize2.unroll_tables(tree)
+    inl = Inliner(tree, anchor_names(), foreign)
+    n_inl = inl.run()
+    n += n_inl
+    if n_inl:
+        n += normalize2.forward_lazy_temps(tree)
+        n += normalize2.split_chain_loops(tree)
+    n += normalize2.project_namedtuples(tree)
+    normalize2.propagate_copies(tree)
+    tree = Canon(consts).visit(tree)
     tree = Unroll().visit(tree)
+    n += inl.drop_dissolved()
     ast.fix_missing_locations(tree)
     return tree, n
 
